@@ -75,6 +75,7 @@ pub fn probes(_tier: &str) -> Vec<String> {
     "false.kb.iat",
     "false.kb.typ",
     "false.cred.disclosure_unbound",
+    "false.cred.nonce",
     "probe.nested_disclosure",
     "probe.array_disclosure",
   ]
@@ -171,6 +172,7 @@ struct Concealed {
 
 #[derive(Clone)]
 struct Issued {
+  nonce: Option<String>,
   jwt: String,
   concealed: Vec<Concealed>,
   /// the credential the issuer passed in (full, before concealment)
@@ -348,10 +350,15 @@ pub fn run(_params: &Params) {
       }
       // (decoy digests are not used: sd-jwt-payload draws them from the OS RNG, for which there is no seam)
       let Ok(encoded) = enc.try_to_string() else { continue };
-      let opts = JwsSignatureOptions::default().typ("sd-jwt".to_owned());
+      let mut opts = JwsSignatureOptions::default().typ("sd-jwt".to_owned());
+      let issuer_nonce = if ctx::chance(1, 3) { Some(format!("inonce{}", ctx::choose(100))) } else { None };
+      if let Some(n) = &issuer_nonce {
+        opts = opts.nonce(n.clone());
+      }
       if let Ok(jwt) = sign_raw(&issuer, "sign", encoded.as_bytes(), &opts) {
         ctx::trace(format!("round {round}: issuer signs SD-JWT with {} concealed claims", concealed.len()));
         issued.push(Issued {
+          nonce: issuer_nonce,
           jwt,
           concealed,
           truth,
@@ -516,7 +523,17 @@ pub fn run(_params: &Params) {
     let iv = ledger.latest(&issuer.did).unwrap_or(1);
     let Some((_iv, Ok(issuer_doc))) = ledger.resolve(&issuer.did, draw_lag(iv, 1)) else { continue };
     let issuer_json = serde_json::to_value(&issuer_doc).unwrap();
-    let copts = JwtCredentialValidationOptions::default();
+    // nonce of the issuer's JWS: the verifier configures the right one, another one or none
+    let cred_nonce: Option<String> = match ctx::weighted(&[6, 1, 1]) {
+      0 => it.nonce.clone(),
+      1 => Some("someothernonce".to_owned()),
+      _ => None,
+    };
+    let mut cvo = JwsVerificationOptions::default();
+    if let Some(n) = &cred_nonce {
+      cvo = cvo.nonce(n.clone());
+    }
+    let copts = JwtCredentialValidationOptions::default().verification_options(cvo);
     let res = ctx::catch(|| validator.validate_credential::<_, Object>(&received, &issuer_doc, &copts, FailFast::FirstError));
     match res {
       Err(p) => {
@@ -536,7 +553,11 @@ pub fn run(_params: &Params) {
               .and_then(|(_, jwk)| jwk.get("x").and_then(|x| x.as_str().map(str::to_owned)));
             let signing_input = format!("{}.{}", p.header_b64, p.payload_b64);
             let all: Vec<&Party> = std::iter::once(&issuer).chain(holders.iter()).chain(std::iter::once(&adv)).collect();
-            let sig_ok = p.header.get("nonce").is_none()
+            let nonce_ok = p.header.get("nonce").and_then(|n| n.as_str()) == cred_nonce.as_deref();
+            if !nonce_ok {
+              ctx::stat("false.cred.nonce");
+            }
+            let sig_ok = nonce_ok
               && DIDUrl::parse(kid).is_ok()
               && did_of_url(kid) == issuer.did
               && p.header.get("alg").and_then(|a| a.as_str()) == Some("EdDSA")
